@@ -651,7 +651,7 @@ pub fn run(property: &'static str, tier: Tier, started: Instant) -> Vec<Part> {
 
     // Histories in which a delta resets the observer's copy of the member (the stored heartbeat goes
     // back to 0) lie outside C10's quantifier ("heartbeat arrival histories"), and on the unchanged code
-    // a reset lets already-seen values be reported once more (observation O-4 in DESIGN.md): the
+    // a reset lets already-seen values be reported once more (observation O-6 in DESIGN.md): the
     // observation-counting and deadline oracles of C10 do not apply to them. Under C11 the part keeps
     // the one oracle that holds with resets: never live with fewer than two strictly increasing values
     // (with a single value ever delivered, nothing is ever reported to the detector).
